@@ -480,8 +480,9 @@ def e2e_case(rng):
     flows = list(conn.frames)
     quic = rng.random() < 0.6
     if quic:                                            # a QUIC v1 connection next to it (UDP, IPv4 or IPv6)
+        # QUIC sessions are opened by header bits, on ANY port: the server port is often not one of the listed TLS ports
         qc = Q.QConn(rng, v6=(v6 if rng.random() < 0.7 else not v6), cport=rng.randrange(30000, 60000),
-                     t0=conn.frames[0].ts + 0.0005)
+                     sport=rng.choice([443, 4433, 8443, 50001]), t0=conn.frames[0].ts + 0.0005)
         qc.handshake()
         for i in range(rng.randrange(2, 6)):
             d = rng.randrange(2)
